@@ -9,7 +9,7 @@ reported as a violation by itself: a harmless rewrite changes it too.
 
   fingerprint.py          prints {"drift": [files whose fingerprint differs from tools/pinned_fingerprints.json], ...}
   fingerprint.py --pin    rewrites tools/pinned_fingerprints.json from the current /repo (run after a `fix:` commit,
-                          once the checks have passed on it)
+                          once the checks have passed on it; use the interpreter the checks run under: /venv/bin/python)
 """
 import ast, hashlib, json, os, sys
 
@@ -17,6 +17,7 @@ V = os.path.dirname(os.path.dirname(os.path.abspath(__file__)))
 REPO = os.environ.get('PJPLAN_REPO', '/repo')
 SRC = os.path.join(REPO, 'src', 'pjplan')
 PIN = os.path.join(V, 'tools', 'pinned_fingerprints.json')
+PYV = '%d.%d' % sys.version_info[:2]
 
 # which source files each family's model mirrors
 FILES = {
@@ -74,6 +75,9 @@ def drift(family=None):
         pinned = json.load(open(PIN))
     except Exception:
         return {'drift': [], 'pinned': False}
+    if pinned.get('_python') != PYV:
+        # ast.dump differs between Python versions: fingerprints are only comparable under the interpreter that pinned them
+        return {'drift': [], 'pinned': False, 'note': f'pinned under Python {pinned.get("_python")}, running {PYV}'}
     cur = current()
     files = all_files() if family is None else sorted(set(FILES.get(family, [])) | ({f for f in cur if f.startswith('viz/')} if family == 'fam_render' else set()))
     return {'drift': [f for f in files if cur.get(f) != pinned.get(f)], 'pinned': True}
@@ -81,7 +85,7 @@ def drift(family=None):
 
 if __name__ == '__main__':
     if '--pin' in sys.argv:
-        json.dump(current(), open(PIN, 'w'), indent=1, sort_keys=True)
+        json.dump(dict(current(), _python=PYV), open(PIN, 'w'), indent=1, sort_keys=True)
         print('pinned', len(current()), 'files')
     else:
         print(json.dumps(drift(sys.argv[1] if len(sys.argv) > 1 else None)))
